@@ -84,6 +84,42 @@ type selector struct {
 	matchers []matcher // includes the matcher(s) on __name__
 	offset   int64     // ms, may be negative
 	braces   bool      // print {__name__="m",…} instead of m{…}
+	at       *int64    // @ modifier: evaluation time in ms (nil = none)
+	atKind   string    // how it is written: "num", "start", "end"
+}
+
+// modifiers: the text after the selector (or after the range of a range selector).
+func (s *selector) modifiers() string {
+	out := ""
+	if s.at != nil {
+		switch s.atKind {
+		case "start":
+			out += " @ start()"
+		case "end":
+			out += " @ end()"
+		default:
+			out += fmt.Sprintf(" @ %d.%03d", *s.at/1000, *s.at%1000)
+		}
+	}
+	if s.offset != 0 {
+		out += " offset " + durText(s.offset)
+	}
+	return out
+}
+
+func (s *selector) base() string {
+	var ms []string
+	for i := range s.matchers {
+		ms = append(ms, s.matchers[i].text())
+	}
+	out := "{" + strings.Join(ms, ",") + "}"
+	if m0 := &s.matchers[0]; m0.label == "__name__" && m0.kind == "eq" && !s.braces {
+		out = m0.lit
+		if len(ms) > 1 {
+			out += "{" + strings.Join(ms[1:], ",") + "}"
+		}
+	}
+	return out
 }
 
 type rangeFn struct {
@@ -105,6 +141,36 @@ type binExpr struct {
 	match  string // none on ign
 	labels []string
 	l, r   expr
+	// many-to-one matching: group = "left" | "right" | "", include = the labels of the modifier
+	group   string
+	include []string
+}
+
+// setExpr: and / or / unless.
+type setExpr struct {
+	op     string
+	match  string // none on ign
+	labels []string
+	l, r   expr
+}
+
+// kaggExpr: topk / bottomk / quantile.
+type kaggExpr struct {
+	op      string
+	param   float64
+	without bool
+	labels  []string
+	e       expr
+}
+
+// tsExpr: timestamp(e).
+type tsExpr struct{ e expr }
+
+// subqExpr: fn((e)[rng:stp] offset off).
+type subqExpr struct {
+	fn            string
+	rng, stp, off int64
+	e             expr
 }
 
 func durText(ms int64) string {
@@ -137,23 +203,7 @@ func (m *matcher) text() string {
 	return m.label + op + `"` + v + `"`
 }
 
-func (s *selector) text() string {
-	var ms []string
-	for i := range s.matchers {
-		ms = append(ms, s.matchers[i].text())
-	}
-	out := "{" + strings.Join(ms, ",") + "}"
-	if m0 := &s.matchers[0]; m0.label == "__name__" && m0.kind == "eq" && !s.braces {
-		out = m0.lit
-		if len(ms) > 1 {
-			out += "{" + strings.Join(ms[1:], ",") + "}"
-		}
-	}
-	if s.offset != 0 {
-		out += " offset " + durText(s.offset)
-	}
-	return out
-}
+func (s *selector) text() string { return s.base() + s.modifiers() }
 
 func (s *selector) selTokens() []string {
 	t := []string{"sel", strconv.Itoa(len(s.matchers))}
@@ -166,18 +216,17 @@ func (s *selector) selTokens() []string {
 			t = append(t, "v:"+m.lit)
 		}
 	}
-	return append(t, strconv.FormatInt(s.offset, 10))
+	at := "-"
+	if s.at != nil {
+		at = strconv.FormatInt(*s.at, 10)
+	}
+	return append(t, strconv.FormatInt(s.offset, 10), at)
 }
 func (s *selector) tokens() []string { return s.selTokens() }
 func (s *selector) walk(f func(expr)) { f(s) }
 
 func (r *rangeFn) text() string {
-	st := r.sel.text()
-	off := ""
-	if i := strings.Index(st, " offset "); i >= 0 {
-		st, off = st[:i], st[i:]
-	}
-	return r.fn + "(" + st + "[" + durText(r.rng) + "]" + off + ")"
+	return r.fn + "(" + r.sel.base() + "[" + durText(r.rng) + "]" + r.sel.modifiers() + ")"
 }
 func (r *rangeFn) tokens() []string {
 	return append([]string{"rfn", r.fn, strconv.FormatInt(r.rng, 10)}, r.sel.selTokens()...)
@@ -215,6 +264,9 @@ func (b *binExpr) text() string {
 	case "ign":
 		op += " ignoring (" + strings.Join(b.labels, ",") + ")"
 	}
+	if b.group != "" {
+		op += " group_" + b.group + " (" + strings.Join(b.include, ",") + ")"
+	}
 	return "(" + b.l.text() + ") " + op + " (" + b.r.text() + ")"
 }
 func (b *binExpr) tokens() []string {
@@ -222,14 +274,93 @@ func (b *binExpr) tokens() []string {
 	if b.isBool {
 		bl = "1"
 	}
-	t := []string{"bin", b.op, bl, b.match, strconv.Itoa(len(b.labels))}
+	kind := "bin"
+	if b.group != "" {
+		kind = "bing"
+	}
+	t := []string{kind, b.op, bl, b.match, strconv.Itoa(len(b.labels))}
 	for _, l := range b.labels {
 		t = append(t, "l:"+l)
+	}
+	if b.group != "" {
+		t = append(t, b.group, strconv.Itoa(len(b.include)))
+		for _, l := range b.include {
+			t = append(t, "l:"+l)
+		}
 	}
 	t = append(t, b.l.tokens()...)
 	return append(t, b.r.tokens()...)
 }
 func (b *binExpr) walk(f func(expr)) { f(b); b.l.walk(f); b.r.walk(f) }
+
+func (x *setExpr) text() string {
+	op := x.op
+	switch x.match {
+	case "on":
+		op += " on (" + strings.Join(x.labels, ",") + ")"
+	case "ign":
+		op += " ignoring (" + strings.Join(x.labels, ",") + ")"
+	}
+	return "(" + x.l.text() + ") " + op + " (" + x.r.text() + ")"
+}
+func (x *setExpr) tokens() []string {
+	t := []string{"set", x.op, x.match, strconv.Itoa(len(x.labels))}
+	for _, l := range x.labels {
+		t = append(t, "l:"+l)
+	}
+	t = append(t, x.l.tokens()...)
+	return append(t, x.r.tokens()...)
+}
+func (x *setExpr) walk(f func(expr)) { f(x); x.l.walk(f); x.r.walk(f) }
+
+func (x *kaggExpr) text() string {
+	mod := "by"
+	if x.without {
+		mod = "without"
+	}
+	return fmt.Sprintf("%s %s (%s) (%s, %s)", x.op, mod, strings.Join(x.labels, ","), (&numLit{v: x.param}).text(), x.e.text())
+}
+func (x *kaggExpr) tokens() []string {
+	mod := "by"
+	if x.without {
+		mod = "without"
+	}
+	t := []string{"aggk", x.op, valTok(x.param), mod, strconv.Itoa(len(x.labels))}
+	for _, l := range x.labels {
+		t = append(t, "l:"+l)
+	}
+	return append(t, x.e.tokens()...)
+}
+func (x *kaggExpr) walk(f func(expr)) { f(x); x.e.walk(f) }
+
+func (x *tsExpr) text() string { return "timestamp(" + x.e.text() + ")" }
+func (x *tsExpr) tokens() []string {
+	if sel, ok := x.e.(*selector); ok {
+		return append([]string{"tssel"}, sel.selTokens()...)
+	}
+	return append([]string{"ts"}, x.e.tokens()...)
+}
+func (x *tsExpr) walk(f func(expr)) { f(x); x.e.walk(f) }
+
+func (x *subqExpr) text() string {
+	off := ""
+	if x.off != 0 {
+		off = " offset " + durText(x.off)
+	}
+	return x.fn + "((" + x.e.text() + ")[" + durText(x.rng) + ":" + durText(x.stp) + "]" + off + ")"
+}
+func (x *subqExpr) tokens() []string {
+	return append([]string{"subq", x.fn, strconv.FormatInt(x.rng, 10), strconv.FormatInt(x.stp, 10), strconv.FormatInt(x.off, 10)}, x.e.tokens()...)
+}
+func (x *subqExpr) walk(f func(expr)) { f(x); x.e.walk(f) }
+
+func exactFn(fn string) bool {
+	switch fn {
+	case "last_over_time", "min_over_time", "max_over_time", "count_over_time", "sum_over_time", "present_over_time":
+		return true
+	}
+	return false
+}
 
 func isScalar(e expr) bool { _, ok := e.(*numLit); return ok }
 
@@ -258,6 +389,16 @@ func exactExpr(e expr) bool {
 				ok = false
 			}
 			if n.op == "*" && !isScalar(n.l) && !isScalar(n.r) {
+				ok = false
+			}
+		case *tsExpr:
+			ok = false
+		case *subqExpr:
+			if !exactFn(n.fn) {
+				ok = false
+			}
+		case *kaggExpr:
+			if n.op == "quantile" {
 				ok = false
 			}
 		}
